@@ -1029,6 +1029,7 @@ func writeOutputs(all []Access, outV, outJ, repo string) {
 	}
 	seen := map[key]*Access{}
 	var order []key
+	var kept []Access // the sites behind the emitted facts (same filter as the Coq file)
 	sites := 0
 	for i := range all {
 		a := &all[i]
@@ -1038,6 +1039,7 @@ func writeOutputs(all []Access, outV, outJ, repo string) {
 			continue
 		}
 		sites++
+		kept = append(kept, *a)
 		for _, r := range a.Roles {
 			k := key{a.Field, r, strings.Join(a.Locks, ","), a.Write, a.Atomic}
 			if _, ok := seen[k]; !ok {
@@ -1116,7 +1118,7 @@ func writeOutputs(all []Access, outV, outJ, repo string) {
 	must(os.MkdirAll(filepath.Dir(outV), 0o755))
 	must(os.WriteFile(outV, []byte(sb.String()), 0o644))
 	must(os.MkdirAll(filepath.Dir(outJ), 0o755))
-	js, _ := json.MarshalIndent(map[string]any{"sites": all, "facts": len(order), "access_sites": sites,
+	js, _ := json.MarshalIndent(map[string]any{"sites": kept, "facts": len(order), "access_sites": sites,
 		"functions": len(nodes), "multi_roles": cfg.MultiRoles, "dropped_fields": ignF, "atomic_report": atomicReport}, "", " ")
 	must(os.WriteFile(outJ, js, 0o644))
 	fmt.Printf("lockset: %d functions, %d access sites of shared fields, %d distinct facts\n", len(nodes), sites, len(order))
